@@ -56,6 +56,12 @@ using namespace cds_utils;
 #include "utils/VByte.h"
 
 #define MEMALLOC 32768
+#if defined(LIBCSD_VERIF) && defined(LIBCSD_VERIF_MEMALLOC)
+// Verification hook: a small initial buffer makes the growth path of the
+// constructors reachable with small inputs.
+#undef MEMALLOC
+#define MEMALLOC LIBCSD_VERIF_MEMALLOC
+#endif
 
 class StringDictionaryPFC : public StringDictionary {
 public:
